@@ -120,7 +120,7 @@ def scalar_float_roundtrip(sel: int, v: float) -> bool:
 def list_of_strings_roundtrip(a: str, b: str, n: int) -> bool:
     """
     pre: 0 <= n <= 2
-    pre: 1 <= len(a) <= 2 and 1 <= len(b) <= 2
+    pre: len(a) == 1 and len(b) == 1
     post: _
     """
     return _rt([a, b][:n])
